@@ -1,0 +1,27 @@
+//go:build verif
+
+// Contracts for govc (comment-only file; see /verif/DESIGN.md section 3).
+package ot
+
+// ---- receiver state of the multiplication protocol after Round1 (established by NewMultiplyReceiver / Round1)
+//@ pred aorok(r *AdditiveOTReceiver) := r != nil && r.group != nil && r.result != nil && len(r.result._VChoices) == 8*len(r.choices)
+//@ pred mrok(r *MultiplyReceiver) := r != nil && r.group != nil && r.ctxHash != nil && r.ctxHash.h != nil && aorok(r.receiver) && r.receiver.choices == r.choices && r.receiver.group == r.group && len(r.gadget) == 8*len(r.choices) && each(r.gadget, g, g != nil)
+
+// A sender message of ANY shape is either refused with an error or processed without a panic (C13, C05); on success
+// every batch entry went through the integrity check (the check loop covers the whole batch: loop bound == batch size).
+//@ func (*AdditiveOTReceiver).Round2
+//@   nopanic[C05,C13]
+//@   requires aorok(r)
+//@   modifies heap:E_Int
+//@   allocates
+//@   loop 1: invariant fresh(result) && len(result) == batchSize && forall(k, integer, (0 <= k && k < i) ==> (result[k][0] != nil && result[k][1] != nil))
+//@   ensures[C13] result1 == nil ==> (msg != nil && len(msg.CombinedPads) == 8*len(r.choices) && len(result0) == 8*len(r.choices))
+//@   ensures result1 == nil ==> forall(i, integer, (0 <= i && i < len(result0)) ==> (result0[i][0] != nil && result0[i][1] != nil))
+
+//@ func (*MultiplyReceiver).Round2
+//@   nopanic[C05,C13]
+//@   requires mrok(r)
+//@   loop 1: invariant each(msg.RCheck[:rangeindex+1], c, c != nil)
+//@   loop 2: invariant each(msg.RCheck, c, c != nil) && mrok(r)
+//@   ensures[C13] result1 == nil ==> (msg != nil && msg.UCheck != nil && len(msg.RCheck) == len(r.gadget) && result0 != nil)
+//@   assert_at[C13] Equal "if !checkLeft.Equal(checkRight) {": 0 <= i && i < len(result) && len(result) == len(r.gadget)
